@@ -925,10 +925,16 @@ hwloc__internal_memattr_set_value(hwloc_topology_t topology,
   if (imattr->flags & HWLOC_MEMATTR_FLAG_NEED_INITIATOR) {
     /* find/add the initiator and set its value */
     // FIXME what if cpuset is larger than an existing one ?
+    unsigned nr_initiators = imtg->nr_initiators;
     struct hwloc_internal_memattr_initiator_s *imi = hwloc__memattr_target_get_initiator(imtg, initiator, 1);
     if (!imi)
       return -1;
     imi->value = value;
+    if (imtg->nr_initiators != nr_initiators)
+      /* a new initiator wasn't checked against the topology yet (its cpuset isn't restricted
+       * to the topology cpuset), same as a new target above: refresh on next access.
+       */
+      imattr->iflags &= ~HWLOC_IMATTR_FLAG_CACHE_VALID;
 
   } else {
     /* set the no-initiator value */
